@@ -86,7 +86,14 @@ class Program:
 
     def derive(self, overrides: dict) -> "Program":
         """A program that differs from this one only in the given modules (rel path -> source).
-        Unchanged modules share their parsed, annotated trees (they are treated as read-only)."""
+        When no helper was inlined across modules in this program, unchanged modules share their parsed, annotated
+        trees (they are treated as read-only); otherwise everything is re-read, because an inlined copy of a helper
+        that lives in an overridden module would be stale."""
+        cross = any((m.normalized or {}).get("helper_calls_inlined") for m in self.modules.values())
+        if cross or os.environ.get("SA_NO_NORMALIZE") == "1" and False:
+            ov = dict(self.overrides)
+            ov.update(overrides)
+            return Program(self.root, ov)
         p = Program.__new__(Program)
         p.root = self.root
         p.overrides = dict(overrides)
@@ -95,9 +102,33 @@ class Program:
         p.classes = {}
         p.class_by_name = {}
         p.extra_files = dict(self.extra_files)
-        for name, m in list(self.modules.items()):
-            if m.rel in overrides:
-                p._add_module(m.path, m.rel, name)
+        changed = [(name, m) for name, m in self.modules.items() if m.rel in overrides]
+        pending = {}
+        for name, m in changed:
+            pending[name] = p._parse_module(m.path, m.rel, name)
+        if pending and os.environ.get("SA_NO_NORMALIZE") != "1":
+            # the overridden modules are normalised with the (already normalised) rest of the package in view
+            from .normalize import ProgramNormalizer
+
+            trees = {n: mm.tree for n, mm in self.modules.items() if not mm.rel.startswith("<dep>")}
+            for n, mm in pending.items():
+                trees[n] = mm.tree
+            try:
+                pn = ProgramNormalizer(trees, {n: (pending.get(n) or self.modules[n]).path.endswith("__init__.py") for n in trees}, focus=set(pending))
+                stats = pn.run()
+                if pn.needs_full_reload:
+                    ov = dict(self.overrides)
+                    ov.update(overrides)
+                    return Program(self.root, ov)
+                for n, mm in pending.items():
+                    mm.normalized = stats.get(n, {})
+            except Exception as e:  # best effort
+                for n, mm in pending.items():
+                    mm.normalized = {"error": f"{type(e).__name__}: {e}"}
+                    mm.tree = ast.parse(mm.src, filename=mm.rel)
+        for name, mm in pending.items():
+            _annotate(mm.tree, mm)
+            p.modules[name] = mm
         p._index()
         return p
 
@@ -126,6 +157,23 @@ class Program:
         if not cands:
             raise AnalysisError("aionostr/event.py not found under /venv")
         self._add_module(cands[0], "<dep>/aionostr/event.py", "aionostr.event")
+        self._normalize_and_annotate()
+
+    def _normalize_and_annotate(self) -> None:
+        own = {n: m for n, m in self.modules.items() if not m.rel.startswith("<dep>")}
+        if os.environ.get("SA_NO_NORMALIZE") != "1":
+            from .normalize import ProgramNormalizer
+
+            try:
+                stats = ProgramNormalizer({n: m.tree for n, m in own.items()}, {n: m.path.endswith("__init__.py") for n, m in own.items()}).run()
+                for n, m in own.items():
+                    m.normalized = stats.get(n, {})
+            except Exception as e:  # normalisation is best effort: analyse the trees as written
+                for n, m in own.items():
+                    m.normalized = {"error": f"{type(e).__name__}: {e}"}
+                    m.tree = ast.parse(m.src, filename=m.rel)
+        for m in self.modules.values():
+            _annotate(m.tree, m)
 
     @staticmethod
     def _modname(rel: str) -> str:
@@ -134,7 +182,7 @@ class Program:
             p = p[: -len(".__init__")]
         return p
 
-    def _add_module(self, full: str, rel: str, name: str) -> None:
+    def _parse_module(self, full: str, rel: str, name: str) -> Module:
         with open(full, "rb") as fp:
             raw = fp.read()
         if rel in self.overrides:
@@ -146,22 +194,39 @@ class Program:
             raise AnalysisError(f"{rel} does not parse: {e}")
         m = Module(name, full, rel, src, tree, hashlib.sha256(raw).hexdigest())
         m.lines = src.splitlines()
-        if not rel.startswith("<dep>") and os.environ.get("SA_NO_NORMALIZE") != "1":
-            from .normalize import normalize
+        return m
 
-            try:
-                m.normalized = normalize(tree, name)
-            except Exception as e:  # normalisation is best effort: analyse the tree as written
-                m.normalized = {"error": f"{type(e).__name__}: {e}"}
-                tree = ast.parse(src, filename=rel)
-                m.tree = tree
-        _annotate(tree, m)
-        self.modules[name] = m
+    def _add_module(self, full: str, rel: str, name: str) -> None:
+        """parse only; normalisation and annotation happen once all modules are read (_normalize_and_annotate)"""
+        self.modules[name] = self._parse_module(full, rel, name)
 
     # ---- index -------------------------------------------------------
     def _index(self) -> None:
         for m in self.modules.values():
             self._index_body(m, m.tree.body, prefix="")
+        # a function of the frozen anchor table that was moved to another module and imported back keeps its address
+        try:
+            from .normalize import known_funcs
+
+            for k in known_funcs():
+                if k in self.functions:
+                    continue
+                mod, _, q = k.partition(":")
+                m = self.modules.get(mod)
+                if m is None or "." in q:
+                    continue
+                tgt = self.imports_of(m).get(q)
+                seen = 0
+                while tgt and seen < 4:
+                    seen += 1
+                    m2, _, sym = tgt.rpartition(".")
+                    if f"{m2}:{sym}" in self.functions:
+                        self.functions[k] = self.functions[f"{m2}:{sym}"]
+                        break
+                    mm2 = self.modules.get(m2)
+                    tgt = self.imports_of(mm2).get(sym) if mm2 is not None else None
+        except Exception:
+            pass
         for ci in self.classes.values():
             for b in ci.base_names:
                 r = self.resolve_class_name(ci.module, b)
